@@ -192,6 +192,8 @@ def failure_key(run, ops):
         return "panic"
     if cls[0] == "causality":
         return "causality"
+    if cls[0] == "branchlimit":
+        return "branchlimit"
     return "internal:" + " ".join(cls)
 
 
@@ -230,24 +232,37 @@ def is_failure(k):
     return not k.startswith("ok|")
 
 
-def oracle_deviations(ikeys, ifinal, rkeys):
-    """Compare the implementation's outcome set with the reference set R.
-    Returns a list of deviation strings (empty = the program behaves as R says)."""
+def oracle_deviations(ikeys, ifinal, rkeys, wkeys=None):
+    """Compare the implementation's outcome set with the reference semantics.
+    rkeys: outcomes of R with sequentially consistent atomics -- the LOWER bound
+    (everything an interleaving can produce must be explored); wkeys: outcomes of
+    R with unconstrained atomic reads -- the UPPER bound for what the sync objects
+    allow (defaults to rkeys). Returns a list of deviation strings."""
+    if wkeys is None:
+        wkeys = rkeys
     dev = []
+    if "ref-out-of-fuel" in rkeys or "ref-out-of-fuel" in wkeys:
+        return ["ref-out-of-fuel"]
+    if ifinal == "causality" or "causality" in ikeys:
+        return []          # data races are C04's business; R has no race detector
     rfail = {k for k in rkeys if is_failure(k)}
     rok = rkeys - rfail
-    if "ref-out-of-fuel" in rkeys:
-        return ["ref-out-of-fuel"]
+    wfail = {k for k in wkeys if is_failure(k)}
+    wok = wkeys - wfail
     if ifinal == "ok":
         for k in sorted(rfail):
             dev.append("missed-failure:" + k.split("|")[0])
         for k in sorted(rok - ikeys):
             dev.append("missing:" + k)
+    elif ifinal == "branchlimit":
+        # a spin loop that can never exit: R blocks for ever (deadlock)
+        if "deadlock" not in wkeys:
+            dev.append("spurious-failure:branchlimit")
     else:
         base = ifinal.split("|")[0]
-        if ifinal not in rkeys and not any(k.split("|")[0] == base for k in rfail if base in ("deadlock", "panic")):
+        if ifinal not in wkeys and not any(k.split("|")[0] == base for k in wfail if base in ("deadlock", "panic")):
             dev.append("spurious-failure:" + ifinal)
-    for k in sorted(k for k in ikeys if not is_failure(k) and k not in rok):
+    for k in sorted(k for k in ikeys if not is_failure(k) and k not in wok):
         dev.append("forbidden:" + k)
     return dev
 
@@ -288,14 +303,16 @@ class Known:
 
 def oracle_compare(ctx, fam, known, ref_mode="ref"):
     """For every program of the family: implementation outcome set vs R.
+    ref_mode "ref": R_sc is both bounds; "refw": R_sc lower bound, R_weak upper bound.
     Returns (violations, nknown, stats)."""
-    rk = driver_keys(ref_mode, fam.file)
+    rk = driver_keys("ref", fam.file)
+    wk = driver_keys("refw", fam.file) if ref_mode == "refw" else rk
     violations = []
     nknown = 0
     ndev_progs = 0
     for i, p in sorted(fam.parsed.items()):
         ik, ifinal = impl_keys(p)
-        devs = oracle_deviations(ik, ifinal, rk[i]["keys"])
+        devs = oracle_deviations(ik, ifinal, rk[i]["keys"], wk[i]["keys"])
         if devs:
             ndev_progs += 1
         for d in devs:
@@ -472,13 +489,14 @@ class OutcomeCheck:
                 res["broken"].append(
                     f"correspondence L vs implementation ({name} family): program `{m.get('prog', '?')}` iteration {m.get('iteration')}: impl `{str(m.get('impl'))[:160]}` model `{str(m.get('model'))[:160]}`")
                 # search: programs whose behaviour the model does not reproduce
-                rk = driver_keys(self.ref_mode, fam.file)
+                rk = driver_keys("ref", fam.file)
+                wk = driver_keys("refw", fam.file) if self.ref_mode == "refw" else rk
                 for m in mm:
                     i = m.get("index")
                     if i is None or i not in fam.parsed:
                         continue
                     ik, ifinal = impl_keys(fam.parsed[i])
-                    for d in oracle_deviations(ik, ifinal, rk[i]["keys"]):
+                    for d in oracle_deviations(ik, ifinal, rk[i]["keys"], wk[i]["keys"]):
                         if self.relevant(d) and not known.match(fam.lines[i], d):
                             res["violations"].append({"prog": fam.lines[i], "deviation": d, "found_by": "search after correspondence mismatch"})
             for v in self.extra(ctx, fam, fam.lines):
@@ -519,12 +537,13 @@ class OutcomeCheck:
             f = os.path.join(ctx.dir, "replay.txt")
             open(f, "w").write(v["prog"] + "\n")
             fam = FamilyRun(ctx, [v["prog"]], "replay", cap=self.cap)
-            rk = driver_keys(self.ref_mode, fam.file)
+            rk = driver_keys("ref", fam.file)
+            wk = driver_keys("refw", fam.file)
             for i, p in fam.parsed.items():
                 ik, ifinal = impl_keys(p)
                 print("implementation outcomes:", sorted(ik))
-                print("reference outcomes     :", sorted(rk[i]["keys"]))
-                print("deviations             :", oracle_deviations(ik, ifinal, rk[i]["keys"]))
+                print("reference outcomes (SC):", sorted(rk[i]["keys"]))
+                print("deviations             :", oracle_deviations(ik, ifinal, rk[i]["keys"], wk[i]["keys"] if self.ref_mode == "refw" else None))
         ctx.cleanup()
         return 0
 
@@ -550,7 +569,161 @@ class C01(OutcomeCheck):
         return gen.family_random(ctx.seed, n, list("AMRCNHUPFY"), nthreads=(2, 3), maxops=3, prefix="c01r")
 
 
+
+def rnd(prefix, kinds, nq=120, nt=1200, nthreads=(2, 3), maxops=3, **cfg):
+    def f(self, ctx):
+        n = nq if ctx.tier == "quick" else nt
+        return gen.family_random(ctx.seed, n, list(kinds), nthreads=nthreads, maxops=maxops, prefix=prefix, **cfg)
+    return f
+
+
+PARTIAL_NOTE = ("The refinement of L to R for all programs is not proved; what is proved is listed in the evidence (theorems) and the rest is "
+                "validated by whole-run correspondence and the outcome oracle on the bounded-exhaustive core.")
+
+
+class C05(OutcomeCheck):
+    kinds = ("missed-failure", "spurious-failure")
+    technique = "Coq model + refutation theorems + local lemmas; whole-run correspondence; deadlock oracle against R"
+    rule = "bounded-exhaustive F-dead core (lock order, channels, notify, park/unpark incl. unpark of threads blocked elsewhere, condvar lost wake-ups, rwlock) + seeded random blocking programs"
+    level_text = ("Deadlock exactness is stated against R (a deadlock is reported iff R reaches a state with an unfinished thread and no enabled step). "
+                  "Proved: refutation witnesses for the listed findings (unpark waking a thread blocked on a join: internal panic; early unpark never explored); "
+                  "first-failure-is-the-result (CheckFacts). " + PARTIAL_NOTE)
+    level_note = "partial: deadlock soundness/completeness for all programs is not a theorem"
+    ref_mode = "refw"
+    det_family = lambda self, ctx: gen.fam_dead_core(ctx.tier)
+    rnd_family = rnd("c05r", "MRCNHPA")
+
+
+class C07(OutcomeCheck):
+    kinds = ("forbidden", "spurious-failure")     # completeness of the exploration is C01 / C05
+    technique = "Coq lemmas (try_* exactness, hand-over of clocks) + whole-run correspondence + lock-language trace check + outcome oracle"
+    rule = "bounded-exhaustive F-lock core (<=2 mutexes, rwlock, nested/overlapping sections with cells inside) + seeded random lock programs; every execution's trace is checked for exclusion"
+    level_text = ("Proved (SyncFacts): try_lock/try_read/try_write succeed exactly when the lock is compatible at the step; release publishes the releaser's clock and the next "
+                  "acquire joins it (hand-over happens-before). Exclusion and blocking are checked on every explored execution's trace and against R. " + PARTIAL_NOTE)
+    level_note = "partial: exclusion as a global invariant of all executions is checked per execution, not proved"
+    ref_mode = "refw"
+    det_family = lambda self, ctx: gen.fam_lock_core(ctx.tier)
+    rnd_family = rnd("c07r", "MRUA")
+
+    def extra(self, ctx, fam, lines):
+        return lock_trace_check(fam, lines)
+
+
+class C08(OutcomeCheck):
+    technique = "Coq lemmas (notify/park/join clock transfer) + refutations + whole-run correspondence + outcome oracle"
+    rule = "bounded-exhaustive F-wait core (condvar, Notify, park/unpark, join; early/late/double notifications) + seeded random"
+    level_text = ("Proved (SyncFacts): a wait returns only with the flag set and consumes it, notify publishes the notifier's clock to the woken thread, unpark joins clocks. "
+                  "Refuted on the current tree (listed findings): park tokens are lost / unpark wakes threads blocked elsewhere. " + PARTIAL_NOTE)
+    level_note = "partial"
+    ref_mode = "refw"
+    det_family = lambda self, ctx: gen.fam_wait_core(ctx.tier) + [l for l in gen.fam_dead_core(ctx.tier) if l.startswith(("ddN", "ddP", "ddC"))]
+    rnd_family = rnd("c08r", "MCNPU")
+
+
+class C09(OutcomeCheck):
+    technique = "Coq lemmas (send/recv clock transfer, message count) + whole-run correspondence + outcome oracle"
+    rule = "bounded-exhaustive F-chan core (1-3 senders, one receiver, recv/try_recv/drop) + seeded random channel programs"
+    level_text = ("Proved (SyncFacts): every send increments the message count and publishes the sender's clock in FIFO position, a receive joins the clock of the message it takes, "
+                  "receive on an empty channel cannot complete. FIFO/exactly-once/try_recv exactness are compared with R on the core. " + PARTIAL_NOTE)
+    level_note = "partial"
+    ref_mode = "refw"
+    det_family = lambda self, ctx: gen.fam_chan_core(ctx.tier)
+    rnd_family = rnd("c09r", "HUA")
+
+
+class C10(OutcomeCheck):
+    technique = "Coq theorem on the leak check (first leaking entry) + whole-run correspondence + outcome oracle with leak outcomes"
+    rule = "bounded-exhaustive F-leak core (Arc handles cloned/moved/unwrapped/dropped, Track, channel contents) + seeded random"
+    level_text = ("The leak check of the model reports exactly the first store entry that still has a positive Arc count, an undropped allocation or queued messages (computed by the model, "
+                  "compared with the implementation on every iteration and with R's final states). " + PARTIAL_NOTE)
+    level_note = "partial"
+    ref_mode = "refw"
+    det_family = lambda self, ctx: gen.fam_leak_core(ctx.tier)
+    rnd_family = rnd("c10r", "KTHA")
+
+
+class C11(OutcomeCheck):
+    technique = "Coq lemmas (ref-count transfer, final drop acquires every earlier drop's clock) + whole-run correspondence + outcome oracle"
+    rule = "bounded-exhaustive F-arc core (clone/strong_count/get_mut/try_unwrap/drop in 2-3 threads) + seeded random"
+    level_text = ("Proved (SyncFacts): each drop publishes its clock, the drop that reaches zero joins all of them; counts returned by strong_count/get_mut/try_unwrap are compared with the "
+                  "reference counter machine R for every interleaving of the core. " + PARTIAL_NOTE)
+    level_note = "partial"
+    ref_mode = "refw"
+    det_family = lambda self, ctx: gen.fam_arc_core(ctx.tier)
+    rnd_family = rnd("c11r", "KA")
+
+
+class C18(OutcomeCheck):
+    technique = "Coq model (yield scheduling, seen-before-yield pruning) + whole-run correspondence + outcome oracle with blocking await"
+    rule = "bounded-exhaustive F-spin core (one await loop at every placement over atomics written once, all orderings) + never-true loop with a small branch limit"
+    level_text = ("Spin loops are compared with R where await is a blocking read: every exit combination must be explored and the branch limit must not be hit; a loop that can never exit "
+                  "must end in the branch-limit panic. " + PARTIAL_NOTE)
+    level_note = "partial"
+    ref_mode = "refw"
+    kinds = ("missing", "missed-failure", "spurious-failure")
+    det_family = lambda self, ctx: gen.fam_spin_core(ctx.tier)
+    rnd_family = lambda self, ctx: []
+
+
+def lock_trace_check(fam, lines):
+    """Mutual exclusion on every explored execution, from the order in which the
+    operations completed: a mutex / write guard is never held by two threads,
+    readers never coexist with a writer."""
+    import re
+    viol = []
+    for i, p in fam.parsed.items():
+        bodies = [b.split(";") for b in lines[i].split("|")[3:]]
+        ops = [[o.strip() for o in b] for b in bodies]
+        for n, it in enumerate(p["iterations"]):
+            held = {}   # obj -> ("M", tid) | ("W", tid) | ("R", set)
+            bad = None
+            for b, pc, r in it["ops"]:
+                if b < 0 or b >= len(ops) or pc >= len(ops[b]):
+                    continue
+                w = ops[b][pc].split()
+                if not w:
+                    continue
+                op = w[0]
+                if op in ("lk", "tl") and (op == "lk" or r == "1"):
+                    m = int(w[1])
+                    if m in held:
+                        bad = f"mutex {m} acquired by thread {b} while held by {held[m]}"
+                    held[m] = ("M", b)
+                elif op == "ul" and r == "-":
+                    held.pop(int(w[1]), None)
+                elif op in ("wr", "twr") and (op == "wr" or r == "1"):
+                    m = int(w[1])
+                    if m in held:
+                        bad = f"write lock {m} acquired by thread {b} while held by {held[m]}"
+                    held[m] = ("W", b)
+                elif op == "uwr" and r == "-":
+                    held.pop(int(w[1]), None)
+                elif op in ("rd", "trd") and (op == "rd" or r == "1"):
+                    m = int(w[1])
+                    if m in held and held[m][0] == "W":
+                        bad = f"read lock {m} acquired by thread {b} while write-held by {held[m]}"
+                    cur = held.get(m, ("R", set()))
+                    if cur[0] == "R":
+                        cur[1].add(b)
+                        held[m] = cur
+                elif op == "urd" and r == "-":
+                    m = int(w[1])
+                    if m in held and held[m][0] == "R":
+                        held[m][1].discard(b)
+                        if not held[m][1]:
+                            held.pop(m)
+                elif op == "wt" and r == "-":
+                    pass
+                if bad:
+                    break
+            if bad:
+                viol.append({"prog": lines[i], "deviation": "exclusion:" + bad, "iteration": n + 1})
+                break
+    return viol
+
+
 HOOK_COMMITS = ["8f72140"]
-FIX_COMMITS = ["4a97b3f", "e9415b5", "1d4f62f", "36c0d26", "7942235"]
+FIX_COMMITS = ["4a97b3f", "e9415b5", "1d4f62f", "36c0d26", "7942235", "13413be", "756d098"]
 NOT_CLAIMED = {}
-REGISTRY = {"C14": C14(), "C01": C01()}
+REGISTRY = {"C14": C14(), "C01": C01(), "C05": C05(), "C07": C07(), "C08": C08(), "C09": C09(),
+            "C10": C10(), "C11": C11(), "C18": C18()}
